@@ -44,6 +44,15 @@ type c01Case struct {
 	Ops         []c01Op `json:"ops"`
 }
 
+// genDataLen: mostly short blobs, sometimes lengths around the calldata limit (256) and the report data limit: the execution
+// environment's buffer must take the LARGER of the two limits.
+func genDataLen(rt *rapid.T, maxReport uint64) int {
+	if gen.Chance(rt, "bigdata", 1, 5) {
+		return gen.OneOf(rt, "bigdatalen", 255, 256, 257, 300, int(maxReport)-1, int(maxReport), int(maxReport))
+	}
+	return rapid.IntRange(0, 16).Draw(rt, "datalen")
+}
+
 func genC01(rt *rapid.T) c01Case {
 	n := rapid.IntRange(3, 7).Draw(rt, "nvals")
 	c := c01Case{NVals: n}
@@ -81,7 +90,7 @@ func genC01(rt *rapid.T) c01Case {
 			}
 			start := rapid.IntRange(0, n-1).Draw(rt, "start")
 			for j := 0; j < k; j++ {
-				c.Ops = append(c.Ops, c01Op{Kind: "report", Req: req, Val: (start + j) % n, Variant: "exact", DataLen: rapid.IntRange(0, 16).Draw(rt, "datalen")})
+				c.Ops = append(c.Ops, c01Op{Kind: "report", Req: req, Val: (start + j) % n, Variant: "exact", DataLen: genDataLen(rt, c.MaxReportSz)})
 			}
 		case w < 70:
 			v := gen.OneOf(rt, "variant", "exact", "exact", "exact", "exact", "exact", "exact", "missing", "extra", "wrong", "oversize", "exit", "empty", "dupadj", "dupfar", "reorder")
@@ -93,7 +102,7 @@ func genC01(rt *rapid.T) c01Case {
 				}
 			}
 			c.Ops = append(c.Ops, c01Op{Kind: "report", Req: req, Val: gen.Uniform(rt, "val", n+1),
-				Variant: v, DataLen: rapid.IntRange(0, 16).Draw(rt, "datalen")})
+				Variant: v, DataLen: genDataLen(rt, c.MaxReportSz)})
 		case w < 94:
 			c.Ops = append(c.Ops, c01Op{Kind: "end", Dt: gen.OneOf(rt, "dt", 0, 1, 1, 3, 6, 60)})
 		case w < 97:
@@ -324,6 +333,16 @@ func runC01(c c01Case) *pbt.Verdict {
 				r.status, r.result = oracletypes.RESOLVE_STATUS_SUCCESS, []byte("ok")
 			case 1:
 				r.status, r.result = oracletypes.RESOLVE_STATUS_SUCCESS, c01EchoResult(r, now)
+				if span := max(c.MaxReportSz, op.MaxCalldataSize); uint64(len(r.result)) > span {
+					// the script cannot return more than the VM's span size (the larger of the two data limits)
+					r.status, r.result = oracletypes.RESOLVE_STATUS_FAILURE, []byte{}
+					v.Class("echo-result-larger-than-span")
+				}
+				for _, rep := range r.reports {
+					if uint64(len(rep[0].Data)) > op.MaxCalldataSize {
+						v.Class("script-reads-report-longer-than-max-calldata")
+					}
+				}
 			case 2:
 				r.status, r.result = oracletypes.RESOLVE_STATUS_FAILURE, []byte{}
 			case 4:
